@@ -160,7 +160,8 @@ def expParent : Chain → Nat
 
 theorem succession_def (c : Chain) (b : Blk) : succession c b =
     if nextHeight c != b.num then .badNumber
-    else if b.parent != expParent c then .parentMismatch else .stored := by
+    else if b.parent != expParent c then .parentMismatch
+    else if b.root != rootStep (stateRoot c) b.diff then .rootMismatch else .stored := by
   cases c <;> rfl
 
 theorem succession_stored {c : Chain} {b : Blk} (h : succession c b = .stored) :
@@ -172,12 +173,51 @@ theorem succession_stored {c : Chain} {b : Blk} (h : succession c b = .stored) :
     · simp [h1, h2] at h
   · simp [h1] at h
 
+/-- `Store` succeeded: the root the block claims IS the root of the state after applying its diff -/
+theorem succession_stored_root {c : Chain} {b : Blk} (h : succession c b = .stored) :
+    b.root = rootStep (stateRoot c) b.diff := by
+  rw [succession_def] at h
+  by_cases h1 : nextHeight c = b.num
+  · by_cases h2 : b.parent = expParent c
+    · by_cases h3 : b.root = rootStep (stateRoot c) b.diff
+      · exact h3
+      · simp [h1, h2, h3] at h
+    · simp [h1, h2] at h
+  · simp [h1] at h
+
+/-- a block claiming another root than the one its diff produces is never `stored` -/
+theorem succession_wrong_root {c : Chain} {b : Blk} (h : b.root ≠ rootStep (stateRoot c) b.diff) :
+    succession c b ≠ .stored := fun hs => h (succession_stored_root hs)
+
+/-- every block of the chain claims exactly the root of the state its history produces -/
+def RootsOK : Chain → Prop
+  | [] => True
+  | b :: tl => b.root = rootStep (stateRoot tl) b.diff ∧ RootsOK tl
+
+theorem RootsOK.tail {b : Blk} {tl : Chain} (h : RootsOK (b :: tl)) : RootsOK tl := h.2
+
+theorem RootsOK.suffix {c d : Chain} (h : RootsOK c) (hs : d <:+ c) : RootsOK d := by
+  induction c with
+  | nil => simp at hs; subst hs; trivial
+  | cons b tl ih =>
+    rcases List.suffix_cons_iff.mp hs with rfl | h'
+    · exact h
+    · exact ih h.2 h'
+
+/-- the head's claimed root is the root of the state the node holds -/
+theorem RootsOK.head_root {b : Blk} {tl : Chain} (h : RootsOK (b :: tl)) :
+    b.root = stateRoot (b :: tl) := h.1
+
+theorem RootsOK.cons_of_succession {c : Chain} {b : Blk} (hr : RootsOK c)
+    (h : succession c b = .stored) : RootsOK (b :: c) := ⟨succession_stored_root h, hr⟩
+
 theorem succession_parentMismatch {c : Chain} {b : Blk} (h : succession c b = .parentMismatch) :
     b.num = nextHeight c ∧ b.parent ≠ expParent c := by
   rw [succession_def] at h
   by_cases h1 : nextHeight c = b.num
   · by_cases h2 : b.parent = expParent c
-    · simp [h1, h2] at h
+    · simp only [h1, h2, bne_self_eq_false, Bool.false_eq_true, if_false] at h
+      split at h <;> cases h
     · exact ⟨h1.symm, h2⟩
   · simp [h1] at h
 
@@ -283,6 +323,10 @@ theorem Sim.step_deliver (cfg : Cfg) {m : Mode} {i : Impl} {sp : Spec} (h : Sim 
     case neg =>
     cases hsucc : succession i.node.chain b with
     | badNumber =>
+      refine ⟨sp.addBlock (req, b), ?_, ?_⟩
+      · simp [Impl.emit, ht, Impl.step, hok, hc, hsucc, Spec.run, hserved]
+      · simpa [Impl.step, ht, hok, hc, hsucc, Impl.addBlock] using h1
+    | rootMismatch =>
       refine ⟨sp.addBlock (req, b), ?_, ?_⟩
       · simp [Impl.emit, ht, Impl.step, hok, hc, hsucc, Spec.run, hserved]
       · simpa [Impl.step, ht, hok, hc, hsucc, Impl.addBlock] using h1
@@ -694,7 +738,7 @@ theorem Spec.stored_inv {m : Mode} {s s' : Spec} {n h : Nat}
   split at hst
   · split at hst <;> cases hst
   · split at hst
-    · cases hst
+    · split at hst <;> cases hst
     · rename_i rb hfind
       have hm := List.mem_of_find?_eq_some hfind
       have hp := List.find?_some hfind
